@@ -40,6 +40,9 @@ def modelled : List String := [
   "utils.CheckBigIntArrayInField",
   "utils.CheckBigIntInField",
   "utils.ElementArrayToBigIntArray",
+  "ff.<asm>@element_mul_adx_amd64.s",
+  "ff.<asm>@element_mul_amd64.s",
+  "ff.<asm>@element_ops_amd64.s",
   "ff.<decls>@arith.go",
   "ff.<decls>@asm.go",
   "ff.<decls>@asm_noadx.go",
@@ -55,6 +58,6 @@ theorem source_pinned : modelled.all (same I3.Gen.fingerprints) = true := by dec
 theorem function_set_pinned : (["ff.", "poseidon.", "utils."] : List String).all (sameKeys I3.Gen.fingerprints) = true := by
   decide +kernel
 
-theorem modelled_nonempty : 39 = modelled.length := by decide
+theorem modelled_nonempty : 42 = modelled.length := by decide
 
 end I3.Props.C01
